@@ -4,8 +4,9 @@
 -/
 import TB.Spec.ExportSpec
 import TB.Lemmas.Run
+import TB.Lemmas.RunB
 namespace TB
-
+open TB.RB
 /-- after evaluating a list of work items without a panic there is one progress record per item, and the
     k-th record's counters sum to k more than the start -/
 theorem C15_sum (H : Bytes → Bytes) (st : St) (ws : List Work) (c : Counters) (acc : List Counters)
@@ -13,7 +14,23 @@ theorem C15_sum (H : Bytes → Bytes) (st : St) (ws : List Work) (c : Counters) 
     ∃ recs, (solveAll H st ws c acc).2.1 = acc ++ recs ∧ recs.length = ws.length ∧
       ∀ k (hk : k < recs.length),
         recs[k].success + recs[k].failed + recs[k].fault = c.success + c.failed + c.fault + (k + 1) := by
-  sorry
+  induction ws generalizing st c acc with
+  | nil => exact ⟨[], by simp [solveAll], rfl, by simp⟩
+  | cons w ws ih =>
+    rw [solveAll_cons] at h ⊢
+    by_cases hp : (solvePiece H st w).2 = .panic
+    · rw [if_pos hp] at h; cases h
+    · rw [if_neg hp] at h ⊢
+      obtain ⟨recs, h1, h2, h3⟩ := ih _ _ _ h
+      refine ⟨c.bump (solvePiece H st w).2 :: recs, by rw [h1]; simp, by simp [h2], ?_⟩
+      intro k hk
+      cases k with
+      | zero => simpa using Counters.bump_sum c _ hp
+      | succ k =>
+        have := h3 k (by simpa using hk)
+        rw [Counters.bump_sum c _ hp] at this
+        simp only [List.getElem_cons_succ]
+        omega
 
 /-- run level: a run that returns normally printed exactly `total` records, `total` is the number of work
     items of the distinct torrents, and the last record sums to `total` -/
@@ -21,7 +38,21 @@ theorem C15_run (H : Bytes → Bytes) (inp : RunIn) (h : (run H inp).result = .o
     (run H inp).counters.length = (run H inp).total ∧ (run H inp).total = (run H inp).work.length ∧
     ∀ k (hk : k < (run H inp).counters.length),
       ((run H inp).counters[k]).success + ((run H inp).counters[k]).failed + ((run H inp).counters[k]).fault = k + 1 := by
-  sorry
+  rcases run_shape H inp hne with ⟨h1, _⟩ | ⟨h1, _⟩ | ⟨h1, _⟩ | ⟨ordered, h1, h2, h3, _, _, h4⟩
+  · rw [h1] at h; cases h
+  · rw [h1] at h; cases h
+  · rw [h1] at h; cases h
+  · have hp : (solveAll H (runSt3 inp) ordered ⟨0, 0, 0⟩ []).2.2 = false := by
+      cases hp : (solveAll H (runSt3 inp) ordered ⟨0, 0, 0⟩ []).2.2
+      · rfl
+      · rw [h3, hp] at h; cases h
+    obtain ⟨recs, r1, r2, r3⟩ := C15_sum H _ _ _ _ hp
+    rw [← h4, List.nil_append] at r1
+    generalize (run H inp).counters = cs at *
+    subst r1
+    refine ⟨by omega, h2, ?_⟩
+    intro k hk
+    simpa using r3 k hk
 
 /-- duplicates in the input list do not add pieces: sorting and de-duplicating by info-hash leaves pairwise
     distinct info-hashes, each of which was in the input -/
@@ -29,6 +60,14 @@ theorem C15_dedup (ts : List Torrent) :
     ((dedupTorrents (sortTorrents ts)).map (·.infoHash)).Nodup ∧
     (∀ t ∈ dedupTorrents (sortTorrents ts), t ∈ ts) ∧
     (∀ t ∈ ts, ∃ u ∈ dedupTorrents (sortTorrents ts), u.infoHash = t.infoHash) := by
-  sorry
+  refine ⟨?_, ?_, ?_⟩
+  · refine (dedup_sort_strict ts).imp ?_
+    intro a b hab he
+    subst he
+    rw [bytesLt_irrefl] at hab; cases hab
+  · intro t ht
+    exact (mem_sortTorrents ts t).1 (dedupTorrents_mem _ t ht)
+  · intro t ht
+    exact dedupTorrents_cover _ t ((mem_sortTorrents ts t).2 ht)
 
 end TB
